@@ -251,10 +251,12 @@ func (vm *VM) convertPanic(msg any) error {
 		}
 	case OpPanic:
 		return vm.newPanic(msg)
-	case OpSend, -OpSend:
+	case OpSelect, OpSend, -OpSend:
 		switch err := msg.(type) {
 		case runtime.Error:
 			if s := err.Error(); s == "send on closed channel" {
+				// Discard the cases of the interrupted select.
+				vm.cases = vm.cases[:0]
 				return vm.newPanic(runtimeError(s))
 			}
 		case string:
